@@ -69,6 +69,14 @@ def _skip_uniq_markers(fun, txt):
     return "".join(part if i % 2 else fun(part) for i, part in enumerate(parts))
 
 
+def kill_uniq_markers(txt):
+    """drop the markers of <nowiki>, <math>, ... regions from text that is encoded or cut into pieces
+    (MediaWiki's killMarkers): a mangled marker is not found again and is printed as it is"""
+    if "\x7f" not in txt:
+        return txt
+    return _uniq_marker_rx.sub("", txt)
+
+
 def maybe_numeric_compare(value1: str, value2: str) -> bool:
     if value1 == value2:
         return True
@@ -366,7 +374,7 @@ class PageMagic:
     def URLENCODE(self, args):
         """[MW1.7+] To use a variable (parameter in a template)
         with spaces in an external link."""
-        url = quote_plus(args[0].encode("utf-8"))
+        url = quote_plus(kill_uniq_markers(args[0]).encode("utf-8"))
         return url
 
     @no_arg
@@ -440,7 +448,7 @@ class StringMagic:
         except ValueError:
             return original_string
 
-        fill_str = args[2] or "0"
+        fill_str = kill_uniq_markers(args[2]) or "0"
         return (
             "".join(
                 [
@@ -458,7 +466,7 @@ class StringMagic:
         except ValueError:
             return original_string
 
-        fillstr = args[2] or "0"
+        fillstr = kill_uniq_markers(args[2]) or "0"
         return original_string + "".join(
             [fillstr[i % len(fillstr)] for i in range(width - len(original_string))]
         )
